@@ -196,6 +196,44 @@ class EvoStep(Unit):
         ctx.ensure("returns ((new state, logger), raw losses)", z3.And(z3.BoolVal(ok), toz(aw.same(ret[0][0], z3.Const("state_after_tell", Leaf))) if ok else z3.BoolVal(False)))
 
 
+class EvoInit(Unit):
+    """EvoSolver.init hands the per-dimension box [u_min, u_max] (flattened, element for element) to the strategy as its clipping bounds"""
+    name = "EvoSolver.init"
+    target = "rex/evo.py::EvoSolver.init"
+    props = ("C18",)
+
+    def run(self, ctx):
+        ex = ctx.ex
+        FLAT = z3.Function("flatten_single", Leaf, Leaf)
+        umin, umax = z3.Const("u_min", Leaf), z3.Const("u_max", Leaf)
+        replaced = {}
+
+        class Params:
+            def pyvc_getattr(self, ex_, attr):
+                if attr == "replace":
+                    return lambda ex2, **kw: (replaced.update(kw), Rec("EvoParams", dict(kw), module=None, frozen=True))[1]
+                raise Unsupported(attr)
+        reshaper = Rec("Reshaper", dict(flatten_single=lambda ex_, x: FLAT(x)), module=None)
+        made = {}
+
+        def strategy_cls(ex_, **kw):
+            made.update(kw)
+            return Rec("Strategy", dict(default_params=Params(), param_reshaper=reshaper), module=None)
+        ex.lib.ns["evosax"] = NS("evosax", {"Strategies": {"CMA_ES": strategy_cls}, "strategy": NS("s", {})})
+        m = ctx.repo.module("rex/evo.py")
+        cref = ex.module_global(m, "EvoSolver")
+        ex.frames.append(__import__("pyvc.interp", fromlist=["Frame"]).Frame({}, [], m, "<evo>"))
+        try:
+            # `evx` is evosax in rex/evo.py
+            ex.frame.env["evx"] = ex.lib.ns["evosax"]
+            sol = ex.call(ex.getattr(cref, "init"), [umin, umax, "CMA_ES"], {})
+        finally:
+            ex.frames.pop()
+        ctx.ensure("C18 the strategy clips every dimension to its own bounds: clip_min = flatten(u_min), clip_max = flatten(u_max), element for element",
+                   z3.And(z3.BoolVal("clip_min" in replaced and "clip_max" in replaced), toz(aw.same(replaced.get("clip_min"), FLAT(umin))), toz(aw.same(replaced.get("clip_max"), FLAT(umax)))))
+        ctx.ensure("the strategy is shaped by the parameter tree", z3.BoolVal(made.get("pholder_params") is umin))
+
+
 class _Splits:
     def __init__(self, rng):
         self.rng = rng
@@ -207,7 +245,7 @@ class _Splits:
 CemUpdate.replay = lambda self, label, clause, probes, model: {"kind": "pure", "which": "cem_update", "probes": probes}
 
 
-UNITS = [CemUpdate(), CemRanking(), GaussianSample(), EvoStep()]
+UNITS = [CemUpdate(), CemRanking(), GaussianSample(), EvoStep(), EvoInit()]
 EXTRA = dict(assumptions=["losses live in R u {NaN}; +inf is a sentinel above every finite loss (tagged encoding of IEEE values)",
                           "EVO: that evosax honours clip_min/clip_max and keeps its best member is the library's contract (assumed); only the rex-side dataflow is proved",
                           "CEM over a scan of cem_step: 'equals the smallest finite loss so far' follows by induction over iterations from the per-iteration clause (written argument)",
